@@ -1,7 +1,9 @@
 //! Correspondence harness: runs the real tarpc code on generated or replayed operation
 //! scripts and prints `script` / `op` / `obs` lines (see DESIGN.md, appendix A).
 mod c13;
+mod cli;
 mod rng;
+mod simt;
 
 use std::io::{BufRead, Write};
 
@@ -39,7 +41,7 @@ fn read_scripts(path: &str) -> Vec<(String, Vec<String>)> {
     scripts
 }
 
-fn header_param(header: &str, name: &str) -> Option<String> {
+pub fn header_param(header: &str, name: &str) -> Option<String> {
     let pre = format!("{name}=");
     header.split_whitespace().find_map(|t| t.strip_prefix(&pre).map(|s| s.to_string()))
 }
@@ -71,6 +73,24 @@ fn main() {
                         .collect();
                     let mut rng = rng::Rng::new(0);
                     c13::run_script(&mut out, i as u64, n, &mut rng, Some(&ops), 0);
+                }
+            }
+        }
+        "cli" => {
+            std::panic::set_hook(Box::new(|_| {}));
+            if replay.is_empty() {
+                let wo: u64 = arg(&args, "wo", 0);
+                let faults: u64 = arg(&args, "faults", 0);
+                cli::generate(&mut out, seed, scripts, len, wo == 1, faults == 1);
+            } else {
+                for (i, (h, ops)) in read_scripts(&replay).iter().enumerate() {
+                    let p = cli::Params::from_header(h);
+                    let ops: Vec<cli::Op> = ops
+                        .iter()
+                        .filter_map(|o| cli::Op::parse(&o.split_whitespace().collect::<Vec<_>>()))
+                        .collect();
+                    let mut rng = rng::Rng::new(0);
+                    cli::run_script(&mut out, i as u64, &p, &mut rng, Some(&ops), 0);
                 }
             }
         }
